@@ -85,7 +85,7 @@ def run(tier, seed, replay=None):
         R2, M2 = rm
         for c in pcases:
             nfresh += 1
-            exp = P.expected_std(c["n"], c["extra"], c["seed"])
+            exp = P.expected_std(c["n"], c["extra"], c["seed"], c.get("idgap", 0), c.get("cmax", 0), c.get("orphans", 0))
             mm = [l for l in M2.get(c["id"] + ".final", []) if l.startswith(("index", "entry"))]
             comp = set(x.group(1) for l in mm for x in re.finditer(r"(c\d+:\d+)=COMP:", l))
             rr = [l for l in P.split_state(R2.get(c["id"], []), "final") if l.startswith(("index", "entry"))]
